@@ -42,6 +42,10 @@ LeafOf(name) ==
     [] name = "UUID" -> [k |-> "uuid"]
     [] name = "Vec3" -> [k |-> "coord", n |-> 3, w |-> 4]
     [] name = "Null" -> Null
+    [] name = "LLSD" -> [k |-> "llsd"]
+    [] name = "BT4" -> [k |-> "bytesterm", terms |-> <<32, 9, 13, 10>>, wt |-> TRUE, eof |-> TRUE]
+    [] name = "BT2r" -> [k |-> "bytesterm", terms |-> <<0, 10>>, wt |-> TRUE, eof |-> FALSE]
+    [] name = "CS3" -> [k |-> "cstr", terms |-> <<0, 10, 59>>, wt |-> TRUE, eof |-> TRUE]
     [] name = "BA8" -> [k |-> "bytearray", p |-> U8]
     [] name = "BAS8" -> [k |-> "bytearray", p |-> S8]
     [] name = "BA16" -> [k |-> "bytearray", p |-> U16]
@@ -60,7 +64,7 @@ LeafOf(name) ==
     [] name = "CSn" -> [k |-> "cstr", terms |-> <<10>>, wt |-> FALSE, eof |-> TRUE]
     [] name = "BIT8" -> BitF(U8, <<[n |-> "a", bits |-> 3], [n |-> "b", bits |-> 5]>>, TRUE)
     [] name = "BIT16n" -> BitF(U16, <<[n |-> "a", bits |-> 4], [n |-> "b", bits |-> 12]>>, FALSE)
-AllLeafNames == {"U8", "S8", "U16", "S16", "U32", "S32", "U64", "S64", "F32", "F64", "UUID", "Vec3", "Null",
+AllLeafNames == {"U8", "S8", "U16", "S16", "U32", "S32", "U64", "S64", "F32", "F64", "UUID", "Vec3", "Null", "LLSD", "BT4", "BT2r", "CS3",
                  "BA8", "BAS8", "BA16", "BA32", "BF2", "BG", "BT", "BTs", "BTn", "STR8", "STR16n", "SF3", "SF8", "CS", "CSn",
                  "BIT8", "BIT16n"}
 
@@ -94,6 +98,7 @@ Con(name, c) ==
     [] name = "TBGe" -> TB("greedy", U8, 0, <<>>, c, TRUE, TRUE)
     [] name = "TBT" -> TB("term", U8, 0, <<0>>, c, FALSE, TRUE)
     [] name = "TBTe" -> TB("term", U8, 0, <<0>>, c, TRUE, TRUE)
+    [] name = "TBT2" -> TB("term", U8, 0, <<10, 0>>, c, FALSE, TRUE)
     [] name = "LenSw" -> [k |-> "lenswitch", ch |-> <<K(2, c), K(0, Null), K(5, [k |-> "bytearray", p |-> U32])>>]
     [] name = "LenSwD" -> [k |-> "lenswitch", ch |-> <<K(3, U8), K(-1, c)>>]
     [] name = "EnumSw" -> [k |-> "enumswitch", e |-> U8, ch |-> <<K(0, c), K(1, U16)>>]
@@ -140,7 +145,7 @@ Con(name, c) ==
     [] name = "MisFlagS" -> [k |-> "flagswitch", f |-> S8, ch |-> <<[bit |-> 1, name |-> "A", t |-> c], [bit |-> 128, name |-> "H", t |-> U8]>>]
     [] name = "MisEnumW" -> [k |-> "enumswitch", e |-> U64, ch |-> <<K(0, c), K(1, U16)>>]
     [] name = "MisBitS" -> Tup(<<BitF(S8, <<[n |-> "a", bits |-> 8]>>, TRUE), BitF(U32, <<[n |-> "a", bits |-> 16], [n |-> "b", bits |-> 16]>>, TRUE), c>>)
-AllConNames == {"CollP", "CollP16", "CollF", "CollG", "OptP", "IfP", "TBP", "TBPe", "TBF", "TBG", "TBGe", "TBT", "TBTe",
+AllConNames == {"CollP", "CollP16", "CollF", "CollG", "OptP", "IfP", "TBP", "TBPe", "TBF", "TBG", "TBGe", "TBT", "TBTe", "TBT2",
                 "LenSw", "LenSwD", "EnumSw", "FlagSw", "TupA", "TupB", "Tup2", "TmplA", "TmplFlag", "TmplSkip",
                 "TmplCtx", "TmplCtxUp", "Adapt"}
 
@@ -216,6 +221,9 @@ V(t) ==
     [] t.k = "coord" -> <<[l |-> [j \in 1..t.n |-> [f |-> <<63 + j, 128, 0, j>> \o Zeros(t.w - 4)]]],
                           [l |-> [j \in 1..t.n |-> [f |-> Zeros(t.w)]]]>>
     [] t.k = "null" -> <<None>>
+    [] t.k = "llsd" -> <<[x |-> <<105, 0, 0, 0, 7>>], [x |-> <<91, 0, 0, 0, 2, 105, 0, 0, 0, 1, 115, 0, 0, 0, 1, 97, 93>>],
+                         [x |-> <<33>>], [x |-> <<115, 0, 0, 0, 2, 104, 105>>],
+                         [x |-> <<123, 0, 0, 0, 1, 107, 0, 0, 0, 1, 107, 49, 125>>], [x |-> <<105, 0, 0>>]>>
     [] t.k = "bytearray" ->
          <<[b |-> <<>>], [b |-> <<0>>], [b |-> <<1, 255, 0>>]>>
          \o (IF MaxLen(t.p) > 0 THEN <<[b |-> Rep(7, MaxLen(t.p))], [b |-> Rep(7, MaxLen(t.p) + 1)]>> ELSE <<>>)
@@ -299,9 +307,21 @@ RowsOf(t) == LET vals == V(t)
                                  IN [v |-> vals[j], st |-> be.st, b |-> be.b, lst |-> le.st, lb |-> le.b]])
              IN SelectSeq(all, LAMBDA r : r.st # "bad")
 
+\* the same values as written by a writer that ends terminated values with another of the legal terminators
+AltTails == {<<>>, <<10, 0, 32, 9, 13, 59>>, <<59, 13, 9, 32, 0, 10>>, <<7, 32, 10>>}
+AltsOf(t, rs) ==
+  IF Rot(t, 1) = t THEN <<>>
+  ELSE Flat([j \in 1..3 |->
+         IF Rot(t, j) = t THEN <<>>
+         ELSE LET got == Force([x \in 1..Len(rs) |-> [v |-> rs[x].v, rot |-> j, be |-> Enc(Rot(t, j), rs[x].v, ">"),
+                                                       le |-> Enc(Rot(t, j), rs[x].v, "<")]])
+                  okx == SelectSeq(got, LAMBDA g : g.be.st = "ok" /\ g.le.st = "ok")
+              IN [x \in 1..Len(okx) |-> [v |-> okx[x].v, rot |-> j, b |-> okx[x].be.b, lb |-> okx[x].le.b]]])
+
 Init == /\ tree \in TopTrees
         /\ rows = RowsOf(tree)
-        /\ PrintT(ToJson([t |-> tree, sd |-> SD(tree), size |-> Size(tree), rows |-> rows]))
+        /\ PrintT(ToJson([t |-> tree, sd |-> SD(tree), size |-> Size(tree), rows |-> rows,
+                          alts |-> AltsOf(tree, SelectSeq(rows, LAMBDA r : r.st = "ok"))]))
 Next == UNCHANGED <<tree, rows>>
 Spec == Init /\ [][Next]_<<tree, rows>>
 
@@ -313,6 +333,12 @@ RoundTrip == \A j \in 1..Len(rows) : \A e \in Es :
 \* self-delimiting specs compose: an encoding followed by arbitrary bytes decodes to the value and leaves them
 Compose == SD(tree) => \A j \in 1..Len(rows) : \A e \in Es : \A tail \in Tails :
                LET r == EncOf(rows[j], e) IN r.st = "ok" => Dec(tree, r.b \o tail, e) = Got(rows[j].v, tail)
+\* a terminated value may end in ANY of its terminators: what another writer of the same format wrote (terminator
+\* lists rotated) decodes to the same value, stopping at the earliest terminator, and leaves the following bytes --
+\* which contain the other terminators -- unread
+AltCompose == LET alts == AltsOf(tree, SelectSeq(rows, LAMBDA r : r.st = "ok")) IN
+              \A x \in 1..Len(alts) : \A e \in Es : \A tail \in (IF SD(tree) THEN AltTails ELSE {<<>>}) :
+                 Dec(tree, (IF e = ">" THEN alts[x].b ELSE alts[x].lb) \o tail, e) = Got(alts[x].v, tail)
 \* a reported fixed size is the size of every encoding
 SizeSound == Size(tree) # -1 => \A j \in 1..Len(rows) : \A e \in Es :
                LET r == EncOf(rows[j], e) IN r.st = "ok" => Len(r.b) = Size(tree)
